@@ -529,24 +529,31 @@ def run_item(harness, item, *, tier="quick", max_paths=256, timeout_ms=20000, ce
         # ---- reachability twin ------------------------------------------------------------------------
         if twin and labels_seen:
             cands = sorted(twin_cands) or sorted(set(labels_seen))
-            tl = cands[rng.randrange(len(cands))]
-            found = {"sat": False, "replayed": False}
+            start = rng.randrange(len(cands))
+            # a label that exists only symbolically (no concrete counterpart to replay against) is skipped: up to three tries
+            for attempt in range(min(3, len(cands))):
+                tl = cands[(start + attempt) % len(cands)]
+                found = {"sat": False, "replayed": False, "present": True}
 
-            def run_twin():
-                out = one_run(twin_label=tl, collect=False)
-                for ob, v in out["sat"]:
-                    if ob.label == tl and not found["replayed"]:
-                        found["sat"] = True
-                        try:
-                            cenv = conc_run(harness, v.model, twin_label=tl, tier=tier, seed=seed, params=params)
-                            hit = [o for o in cenv.obligations if o.label == tl]
-                            if hit and hit[0].value_ok is False:
-                                found["replayed"] = True
-                        except Exception:
-                            pass
-            explore(run_twin, max_paths=max_paths)
-            res.twin = bool(found["sat"] and found["replayed"])
-            res.notes.append(f"twin perturbed '{tl}': sat={found['sat']} replayed={found['replayed']}")
+                def run_twin():
+                    out = one_run(twin_label=tl, collect=False)
+                    for ob, v in out["sat"]:
+                        if ob.label == tl and not found["replayed"]:
+                            found["sat"] = True
+                            try:
+                                cenv = conc_run(harness, v.model, twin_label=tl, tier=tier, seed=seed, params=params)
+                                hit = [o for o in cenv.obligations if o.label == tl]
+                                if not hit:
+                                    found["present"] = False
+                                if hit and hit[0].value_ok is False:
+                                    found["replayed"] = True
+                            except Exception:
+                                pass
+                explore(run_twin, max_paths=max_paths)
+                res.twin = bool(found["sat"] and found["replayed"])
+                res.notes.append(f"twin perturbed '{tl}': sat={found['sat']} replayed={found['replayed']}")
+                if res.twin or found["present"]:
+                    break
     except PathBudgetExceeded as e:
         res.inconclusive.append({"label": "<path budget>", "detail": str(e)})
     except Unsupported as e:
